@@ -13,7 +13,14 @@ def crc(b):
 def tdig(t):
     """digest of a tensor's bytes + dtype + shape"""
     import numpy
-    a = t.detach().cpu().contiguous().numpy()
+    import torch
+    t = t.detach().cpu().contiguous()
+    tag = str(t.dtype)
+    if t.dtype == torch.bfloat16:          # numpy has no bfloat16: digest the raw 16-bit words
+        t = t.view(torch.int16)
+        a = t.numpy()
+        return crc(a.tobytes() + tag.encode() + str(a.shape).encode())
+    a = t.numpy()
     return crc(a.tobytes() + str(a.dtype).encode() + str(a.shape).encode())
 
 
